@@ -302,6 +302,7 @@ class Unit:
                     "ret_name": o.get("ret"),
                     "no_ptr_rule": bool(o.get("noptr")),
                     "ptr_field": o.get("ptrfield"),
+                    "safe_index": bool(o.get("safeindex")),
                     "iter_inline": parse_subst(o.get("iterinline")),
                     "macro_rules": o.get("macro"), "macro_arg": o.get("macroarg"),
                     "hoist": {str(k): {"name": v["name"], "generics": v["generics"], "params": v["params"], "ret": v["ret"]} for k, v in d.hoists.items()},
